@@ -60,6 +60,9 @@ type c19Shared struct {
 	rules   []biscuit.Rule
 	checks  []biscuit.Check
 	pols    []biscuit.Policy
+	opt     biscuit.AuthorizerOption
+	pa      biscuit.ParsedAuthorizer
+	lastPol *biscuit.Policy
 	query   biscuit.Rule
 	extra   m.Block
 	p       parser.Parser
@@ -73,9 +76,17 @@ func (s *c19Shared) runOp(tok *biscuit.Biscuit, g, i int, op C19Op) string {
 	}
 	pub := s.pub
 	newAuth := func() (biscuit.Authorizer, error) {
-		a, err := tok.AuthorizerFor(biscuit.WithSingularRootPublicKey(pub), bridge.WorldOpts())
+		a, err := tok.AuthorizerFor(biscuit.WithSingularRootPublicKey(pub), s.opt)
 		if err != nil {
 			return nil, err
+		}
+		if (g+i)%2 == 0 {
+			// the shared content as one parsed value, then this request's own last policy
+			a.AddAuthorizer(s.pa)
+			if s.lastPol != nil {
+				a.AddPolicy(*s.lastPol)
+			}
+			return a, nil
 		}
 		for _, f := range s.facts {
 			a.AddFact(f)
@@ -211,6 +222,14 @@ func c19Setup(c C19Case) (*c19Shared, error) {
 	}
 	for _, p := range c.Authz.Policies {
 		s.pols = append(s.pols, bridge.ToPolicy(p))
+	}
+	// one option value and one parsed authorizer value, kept by the service and handed to every
+	// authorizer it creates; the parsed policy list has spare capacity, as slices grown by append do
+	s.opt = bridge.WorldOpts()
+	s.pa = biscuit.ParsedAuthorizer{Block: biscuit.ParsedBlock{Facts: s.facts, Rules: s.rules, Checks: s.checks}}
+	if n := len(s.pols); n > 0 {
+		s.pa.Policies = append(make([]biscuit.Policy, 0, n+3), s.pols[:n-1]...)
+		s.lastPol = &s.pols[n-1]
 	}
 	s.idFacts = []biscuit.Fact{bridge.ToFact(m.P("nobody_has_this", m.Int(1)))}
 	for _, b := range c.Spec.Blocks {
@@ -431,7 +450,7 @@ func TestC19(t *testing.T) {
 			os.Remove(c19Log)
 		}
 	}()
-	rec.SetExtra("rule", "rapid sets of 2-8 goroutine scripts of 3-15 operations over one shared token (1-8 blocks, built or reloaded from bytes, authority table with spare capacity), shared biscuit.Fact / Rule / Check / Policy values and one shared parser.Parser: AuthorizerFor + shared content + Authorize, the same with a check whose evaluation fails half-way through a compound expression, Query, signature verification alone, String, Code, GetBlockID with a fresh symbol, CreateBlock+add+Build, Append, Seal, Serialize, RevocationIds, parser.Fact / Rule / Check; start barrier, GOMAXPROCS in {2,4,16}, drawn Gosched points; every script set runs 20 times. Executed in a worker built with -race (GORACE=halt_on_error=1 exitcode=66). Oracle: no race report, and every operation's canonical result equals the result of the same script run alone on a private copy of the token (derivations use per-operation deterministic random streams). Non-trivial = at least two goroutines, one deriving (append / seal / create block / fact lookup) while another verifies, authorizes, queries, prints or serializes; distinct by (scripts, token, GOMAXPROCS).")
+	rec.SetExtra("rule", "rapid sets of 2-8 goroutine scripts of 3-15 operations over one shared token (1-8 blocks, built or reloaded from bytes, authority table with spare capacity), shared biscuit.Fact / Rule / Check / Policy values, one shared AuthorizerOption value, one shared ParsedAuthorizer value (handed to half of the authorizers through AddAuthorizer, followed by their own AddPolicy) and one shared parser.Parser: AuthorizerFor + shared content + Authorize, the same with a check whose evaluation fails half-way through a compound expression, Query, signature verification alone, String, Code, GetBlockID with a fresh symbol, CreateBlock+add+Build, Append, Seal, Serialize, RevocationIds, parser.Fact / Rule / Check; start barrier, GOMAXPROCS in {2,4,16}, drawn Gosched points; every script set runs 20 times. Executed in a worker built with -race (GORACE=halt_on_error=1 exitcode=66). Oracle: no race report, and every operation's canonical result equals the result of the same script run alone on a private copy of the token (derivations use per-operation deterministic random streams). Non-trivial = at least two goroutines, one deriving (append / seal / create block / fact lookup) while another verifies, authorizes, queries, prints or serializes; distinct by (scripts, token, GOMAXPROCS).")
 	rec.SetExtra("assumptions", []string{"the harness does not own the scheduler: the race detector reports unsynchronised access pairs whatever the timing, wrong results without a data race are only sampled", "a worker that exceeds 120 s is inconclusive"})
 	harness.RunWith(t, harness.Spec[C19Case]{ID: "C19", Draw: drawC19, Check: checkC19}, rec)
 }
